@@ -228,6 +228,20 @@ fn ensure_safe_relative_path(p: &str) -> anyhow::Result<()> {
     Ok(())
 }
 
+/// True when the root has no per-target manifest and its legacy-named manifest belongs to this
+/// target and still lists entries. Such a manifest is superseded by the next manifest write.
+pub(crate) fn legacy_manifest_lists_entries(root: &TargetRoot) -> bool {
+    if manifest_path_for_target(&root.root, &root.target).exists() {
+        return false;
+    }
+    let legacy = legacy_manifest_path(&root.root);
+    if !legacy.exists() {
+        return false;
+    }
+    let (manifest, _warnings) = read_target_manifest_soft(&legacy, &root.target);
+    manifest.is_some_and(|m| !m.managed_files.is_empty())
+}
+
 pub(crate) fn manifests_missing_for_desired(
     roots: &[TargetRoot],
     desired: &crate::deploy::DesiredState,
@@ -257,12 +271,14 @@ pub(crate) fn manifests_missing_for_desired(
         let Some(expected) = &expected[idx] else {
             // A root without desired files needs no manifest, but an existing one that is
             // unusable or still lists entries is stale (e.g. left behind by an interrupted apply)
-            // and is rewritten.
+            // and is rewritten; so is a legacy-named one of this target that still lists entries.
             if preferred.exists() {
                 let (manifest, _warnings) = read_target_manifest_soft(&preferred, &root.target);
                 if !manifest.is_some_and(|m| m.managed_files.is_empty()) {
                     return true;
                 }
+            } else if legacy_manifest_lists_entries(root) {
+                return true;
             }
             continue;
         };
